@@ -709,7 +709,7 @@ func (r Stack) Replace(x any, idx int) (ok bool) {
 
 func (r *stack) replace(x any, i int) (ok bool) {
 	if r != nil {
-		if ok = 0 <= i && i+1 <= r.ulen(); ok {
+		if ok = 0 <= i && i < r.ulen(); ok {
 			(*r)[i+1] = x
 		}
 	}
